@@ -71,16 +71,4 @@ func runC42(c *an.Ctx) {
 				c.P.Rel(fn.Pos()), "no call to overlaydb.NewOverlayDB in the body: execution would share an overlay with block processing")
 		}
 	}
-	if c.Tier == "thorough" {
-		// coarser graph: report sites reachable only there as info
-		cha := c.P.CHAGraph()
-		for _, root := range roots {
-			r := cha.Reach([]*ssa.Function{root}, an.ReachOpts{})
-			for _, s := range sinks {
-				if r.Has(s) {
-					c.Note("cha-only|"+an.FuncName(root)+"|"+an.FuncName(s), "CHA over-approximation (information only)", c.P.Rel(root.Pos()), "reachable in CHA graph only")
-				}
-			}
-		}
-	}
 }
